@@ -66,6 +66,17 @@ CHECKS.update({
             "note": _NET_NOTE + " " + _DISK_NOTE},
 })
 
+CHECKS.update({
+    "C16": {"category": "exploration", "design_ref": "DESIGN.md 5/C16",
+            "technique": "deterministic simulation: real poll/reader/connect threads under a baton scheduler with seeded line-granular pre-emption (PCT / random walk) inside the send/teardown window; write-log oracle",
+            "text": "Seeded schedule search (bounded pre-emptions at source-line events inside the send / connection-lost / disconnect window, plus every blocking primitive) over one sender vs. a teardown event and several producers vs. the pump; oracle on the fake devices' write log and on thread deaths.",
+            "note": "Trusted base: kernel (baton passing, sys.settrace pre-emption points, SimLock/SimEvent), fake serial/socket. Pre-emption granularity is a Python source line; C-level sections are atomic under the GIL. Sampling of schedules, not enumeration."},
+    "C18": {"category": "exploration", "design_ref": "DESIGN.md 5/C18",
+            "technique": "deterministic simulation as instrument: configuration swarm over constructor options observed through the simulated devices, clock, disk and broker; version-floor panel against an independent rule",
+            "text": "Partly a simulation target (weakest fit, see DESIGN.md): the property quantifies over configurations; the simulated world shows each option taking effect (factory arguments, reconnect and probe spacing on the simulated clock, file on SimFS, topic prefixes/retain) and the version floor is checked on a frame panel for a grid of version strings.",
+            "note": "Samples the configuration grid; the version-string grid (4x13x5 + specials) is covered by the thorough tier. Bare integer 2 and strings like 'v2.0' are left unchecked as the statement does not fix their meaning."},
+})
+
 NOT_APPLICABLE = {
     "C02": "pure function of its arguments (Message.decode/encode/copy): no schedule, clock, I/O, fault or history can change the result, so deterministic simulation has nothing to decide (DESIGN.md section 6)",
     "C03": "acceptance is a pure function of (version, line); an exhaustive header x payload-class product is table enumeration, not a search over schedules or faults (DESIGN.md section 6)",
